@@ -571,6 +571,10 @@ class C10(Plan):
             return out
         g.one_step(Ns(tier, [0, 1, 2, 3], [0, 1, 2, 3, 4]), [4, 3], mk, suffix=())
         g.one_step([1, 2, 3], [4], mk, suffix=(), elem="NE")
+        # wider capacities and the other element types (a leak-amplification shortcut gated on size or needs_drop)
+        for el in ("E", "NE", "NB", "B"):
+            wide_cases(g, [9, 17, 33, 100], "forget", elem=el, junk=4, suffix=("push_back 9100:1", "as_slices", "clear", "new"),
+                       every=(3 if tier == "quick" else 1))
         random_histories(g, tier, 30 if tier == "quick" else 500, [3, 4, 5, 8], 30)
         # sprinkle forgotten drains into the histories
         for c in g.cases:
